@@ -534,6 +534,11 @@ var defPool = []string{
 	`{{define "blk"}}override <b>{{.B}}</b>{{end}}`,
 	`{{/* comment */}}c`,
 	`<a href="/foo/{{template "lnk" .}}">a</a><a href="{{template "lnk" .}}">b</a>{{define "lnk"}}{{.U}}{{end}}`,
+	// one helper included from the SAME non-text context by several top-level templates (the derived
+	// copy of the helper is shared between analyses that happen in separate calls)
+	`{{define "h"}}{{.A}}{{end}}{{define "X"}}<a title="{{template "h" .}}">x</a>{{end}}{{define "Y"}}<a title="{{template "h" .}}">y</a>!{{end}}<a title="{{template "h" .}}">m</a>`,
+	`{{define "lnk"}}{{.A}}{{end}}{{define "X"}}<a href="/p?q={{template "lnk" .}}">x</a>{{end}}{{define "Y"}}<i>y</i><a href="/p?q={{template "lnk" .}}">y</a>{{end}}<a href="/p?q={{template "lnk" .}}">m</a>`,
+	`{{define "h2"}}<i>{{.}}</i>{{end}}{{define "X"}}<textarea>{{template "h2" .A}}</textarea>{{end}}{{define "Y"}}<textarea>{{template "h2" .B}}</textarea>.{{end}}<textarea>{{template "h2" .A}}</textarea>`,
 }
 
 var histNames = []string{"main", "h", "X", "Y", "bad", "callsbad", "rec", "open", "blk", "h2", "lnk", "missing", "other", ""}
